@@ -409,4 +409,42 @@ theorem wellLocked_sound (table : List (Meth × Prog)) (hw : wellLocked table = 
   rw [a1] at a2
   exact Option.some.inj a2
 
+/-- the invariant behind `wellLocked_sound`, exported: every reachable state of an accepted table is typable -/
+theorem wellLocked_reachable (table : List (Meth × Prog)) (hw : wellLocked table = true)
+    (mode : Mode) (hm : mode ≠ .unsafeMode) (destNil : Bool) (panicky : List FinId)
+    (scripts : List (List ApiCall)) (sched : List Tid) :
+    WL (run (lookup table) (init mode destNil panicky scripts) sched) := by
+  have hinv : (fun s : St => s.sh.mode ≠ .unsafeMode ∧ WL s) (run (lookup table) (init mode destNil panicky scripts) sched) := by
+    apply run_inv (progs := lookup table) (fun s : St => s.sh.mode ≠ .unsafeMode ∧ WL s)
+    · intro s t s' ⟨hmode, hwl⟩ hstep
+      refine ⟨?_, hwl.step (progsOk_of_wellLocked hw) hmode hstep⟩
+      obtain ⟨th, sh', th', hth, hst, rfl⟩ := step_some hstep
+      rcases stepT_cases hst with ⟨_, c, cs, _, rfl, rfl⟩ | ⟨_, b, th0, he, rfl⟩
+      · exact hmode
+      · show sh'.mode ≠ _
+        rw [eff_mode' (effect_inv he)]; exact hmode
+    · refine ⟨hm, ?_⟩
+      intro t th h
+      simp [Ro.Kernel.init] at h
+      obtain ⟨sc, _, rfl⟩ := h
+      simp [Ctl.wl, Ro.Kernel.init]
+  exact hinv.2
+
+/-- C06 / C03 for ARBITRARY programs accepted by the checker: a thread that is about to run a teardown
+    (one of the taken finalizers in Unsubscribe's loop, or the teardown that Add runs at once on a disposed
+    subscription) or to re-raise the joined panics does NOT hold the producer lock — so a teardown that waits
+    for another producer of the same subscriber (stop the goroutine, wait until it has left) cannot deadlock
+    on `mu`, whatever the schedule. -/
+theorem wellLocked_teardowns_outside_mu (table : List (Meth × Prog)) (hw : wellLocked table = true)
+    (mode : Mode) (hm : mode ≠ .unsafeMode) (destNil : Bool) (panicky : List FinId)
+    (scripts : List (List ApiCall)) (sched : List Tid) (t : Tid) (th : Thread)
+    (ht : (run (lookup table) (init mode destNil panicky scripts) sched).threads[t]? = some th)
+    (hh : th.ctl.head = .stmt .runTaken ∨ th.ctl.head = .stmt .runNow ∨ th.ctl.head = .stmt .raiseJoined) :
+    (run (lookup table) (init mode destNil panicky scripts) sched).sh.mu ≠ some t := by
+  have hwl := wellLocked_reachable table hw mode hm destNil panicky scripts sched t th ht
+  intro hmu
+  rcases hh with hh | hh | hh <;>
+  · obtain ⟨fr, rest, k, hs, hb, _⟩ := head_stmt hh
+    simp [Ctl.wl, hs, frameOk, hb, chkL, chkS, Out.bind, Out.ok, hmu] at hwl
+
 end Ro.Kernel
